@@ -150,6 +150,44 @@ def r_reclaim(prog, R):
         r.ok("offset rebased by the removed prefix", f.loc(off[0][2]))
     else:
         r.viol("offset rebased by the removed prefix", f.name, f.loc(f.ln), "read offset not moved by the removed prefix")
+    # every store that moves the read position of the buffer inside reclaim is followed, on every path on which a tag is set, by the re-base
+    # of the tag (a shortcut that rewinds the buffer without looking at the tag silently invalidates it)
+    adj_el = el
+
+    def path_without_rebase(bb, ii):
+        seen = set()
+        work = [(bb.id, ii + 1, [bb.id])]
+        while work:
+            bid, st, trail = work.pop()
+            blk = f.blocks[bid]
+            if any(blk.els[j] is adj_el for j in range(st, len(blk.els))):
+                continue
+            if bid == f.exit:
+                return trail
+            br = f.branch(blk)
+            for k2, nx in enumerate(blk.succs):
+                if nx is None or nx in seen:
+                    continue
+                if br and len(blk.succs) == 2:
+                    skip = False
+                    for c3, p3 in atoms(br[0], k2 == 0):
+                        op3, l3, r3 = norm_cmp(c3, p3)
+                        if op3 == "==" and is_field(l3, "tag_offset") and r3 is not None and "SIZE_MAX" in render(r3):
+                            skip = True          # no tag set on this edge
+                    if skip:
+                        continue
+                seen.add(nx)
+                work.append((nx, 0, trail + [nx]))
+        return None
+    for b2, i2, e2 in f.elements():
+        if e2["k"] == "asg" and strip(e2["e"]["l"]).get("k") == "mem" and strip(e2["e"]["l"])["rec"] == "ares_buf" and strip(e2["e"]["l"])["f"] in ("offset", "data_len", "data"):
+            fld = strip(e2["e"]["l"])["f"]
+            k = "reclaim store %s %s %s keeps the tag valid" % (fld, e2["e"]["op"], render(e2["e"].get("r"))[:30])
+            tr = path_without_rebase(b2, i2)
+            if tr is None:
+                r.ok(k, f.loc(e2))
+            else:
+                r.viol(k, f.name, f.loc(e2), "ares_buf_reclaim changes buf->%s and can return, with a tag set, without re-basing tag_offset: the bytes since the tag are lost and tag fetch/rollback use a stale position" % fld, trail=trail_lines(f, tr))
     rb = prog.func("ares_buf_tag_rollback")
     okr = any(el2["k"] == "asg" and is_field(el2["e"]["l"], "offset", "ares_buf") and is_field(el2["e"].get("r"), "tag_offset", "ares_buf") for _, _, el2 in rb.elements())
     if okr:
